@@ -479,6 +479,9 @@ func (pa *path) doSourceStaticSetReady(req defs.PathSourceStaticSetReadyReq) {
 
 	err := subStream.Initialize()
 	if err != nil {
+		if !pa.conf.AlwaysAvailable {
+			pa.setNotAvailable()
+		}
 		req.Res <- defs.PathSourceStaticSetReadyRes{Err: err}
 		return
 	}
@@ -603,6 +606,9 @@ func (pa *path) doAddPublisher(req defs.PathAddPublisherReq) {
 
 	err := subStream.Initialize()
 	if err != nil {
+		if !pa.conf.AlwaysAvailable {
+			pa.setNotAvailable()
+		}
 		req.Res <- defs.PathAddPublisherRes{Err: err}
 		return
 	}
